@@ -139,3 +139,11 @@ Proof.
   pose proof (tgather_nth l (nonzero m) d Hb) as H1.
   rewrite (tgather_nonzero m l H) in H1. injection H1 as H1. symmetry. exact H1.
 Qed.
+
+(* the two extreme masks *)
+Lemma py_select_mask_extremes : forall {X} (l : list X),
+  py_select (IMask (repeat true (length l))) l = Some l
+  /\ py_select (IMask (repeat false (length l))) l = Some [].
+Proof.
+  intros X l. rewrite !py_select_mask, !repeat_length, Nat.eqb_refl, keep_true_all, keep_true_none. split; reflexivity.
+Qed.
